@@ -433,6 +433,8 @@ vbi_decode(vbi_decoder *vbi, vbi_sliced *sliced, int lines, double time)
 	   */
 	  pthread_mutex_lock(&vbi->chswcd_mutex);
 
+	  VERIF_REGION("chswcd", 1);
+
 	  if (vbi->chswcd == 0)
 		  vbi->chswcd = 40;
 
@@ -456,6 +458,8 @@ vbi_decode(vbi_decoder *vbi, vbi_sliced *sliced, int lines, double time)
 		  vbi_caption_desync(vbi);
 	} else {
 		pthread_mutex_lock(&vbi->chswcd_mutex);
+
+		VERIF_REGION("chswcd", 1);
 		
 		if (vbi->chswcd > 0 && --vbi->chswcd == 0) {
 			pthread_mutex_unlock(&vbi->chswcd_mutex);
@@ -552,6 +556,8 @@ vbi_chsw_reset(vbi_decoder *vbi, vbi_nuid identified)
 
 	pthread_mutex_lock(&vbi->chswcd_mutex);
 
+	VERIF_REGION("chswcd", 1);
+
 	vbi->chswcd = 0;
 
 	pthread_mutex_unlock(&vbi->chswcd_mutex);
@@ -584,6 +590,8 @@ vbi_channel_switched(vbi_decoder *vbi, vbi_nuid nuid)
 	nuid = nuid;
 
 	pthread_mutex_lock(&vbi->chswcd_mutex);
+
+	VERIF_REGION("chswcd", 1);
 
 	vbi->chswcd = 1;
 
